@@ -17,7 +17,8 @@ threading.stack_size(512 * 1024 * 1024)
 
 TRUSTED_BASE = [
     'Coq 8.16.1 kernel (coqc, full .vo build; vm_compute used for finite sweeps and witnesses; no native_compute)',
-    'axioms: none declared; Print Assumptions output per theorem is recorded in this file',
+    'axioms: none declared; Print Assumptions output per theorem is recorded in this file ("Closed under the global context" for every property theorem)',
+    'coqchk -o (thorough tier) re-checks the compiled files independently; it lists the axioms of every LOADED library: Coq.Logic.FunctionalExtensionality.functional_extensionality_dep, Coq.Reals.ClassicalDedekindReals.sig_not_dec and sig_forall_dec (the standard library\'s own; loaded because Lqa/Psatz/Lra require Reals) - no property theorem depends on them',
     'extraction: ExtrOcamlBasic only (bool/option/unit/list/prod/sumbool/sumor mapped to OCaml types; no Extract Constant); OCaml 4.13.1 ocamlopt and ocaml/common.ml + the per-property driver are trusted for the correspondence only',
     'translator harness/translate.py (source tables -> coq/Gen/*.v)',
     'correspondence harness (python generators, renderers, canonicalisers, oracles): differential testing, bounded by generator reach',
@@ -285,6 +286,19 @@ def check_property_file(prop, timeout=900):
     return res
 
 
+def run_coqchk(prop, timeout=900):
+    """independent re-check of the compiled property file and everything it depends on (thorough tier)"""
+    t0 = time.time()
+    with Lock('coq'):
+        rc, out = sh(['coqchk', '-o', '-silent', '-Q', '.', 'LedgerV', 'LedgerV.Properties.Properties_%s' % prop],
+                     cwd=COQ, timeout=timeout)
+    axioms = []
+    m = re.search(r'\* Axioms:(.*?)(?:\n\* |\Z)', out, re.S)
+    if m:
+        axioms = [l.strip() for l in m.group(1).strip().split('\n') if l.strip()]
+    return dict(ok=(rc == 0), axioms=axioms, wall_s=round(time.time() - t0, 1), tail=out[-1500:])
+
+
 def count_before(src, line):
     head = '\n'.join(src.split('\n')[:line - 1])
     names = re.findall(r'^\s*(?:Theorem|Lemma|Corollary)\s+(\w+)', head, re.M)
@@ -507,7 +521,7 @@ def conclude(prop, tier, seed, meta, proof, result, t0, search=None):
             obligations=max(1, len(proof['theorems'])), discharged=proof['discharged'],
             checker_cmd=proof['checker_cmd'], trusted_base=TRUSTED_BASE + meta.get('trusted_extra', []),
             theorems=proof['theorems'], assumptions=proof['assumptions'],
-            failed_theorem=proof['failed'],
+            failed_theorem=proof['failed'], coqchk=proof.get('coqchk'),
             evaluations=result.evaluations, distinct_nontrivial=len(result.nontrivial),
             rule=result.rule, samples=result.samples[:6],
             traces_validated_against_impl=result.traces,
